@@ -49,7 +49,9 @@ inductive Ev
   /-- the node's reveal-to-red countdown (`Op.redScan`, `Node.redPhase`): modelled because it ticks in the block of the whole-node
   scan; what it reveals is not health -/
   | nodeRedScan
-  /-- not a C14 observable: `revealed_to_red`, `red_scan_countdown` (red agent's view), `_scanned_this_step` (observation refresh flag) -/
+  /-- `Folder.pre_timestep` clears the observation refresh flag = `Folder.pre` / `Node.pre` (Model/HealthObs.lean) -/
+  | folderPre
+  /-- not a C14 observable: `revealed_to_red`, `red_scan_countdown` (red agent's view), the folders' own `red_scan_countdown` -/
   | outOfScope
 deriving DecidableEq, Repr
 
@@ -67,24 +69,24 @@ def modelWriters : List (W × Ev) := [
   (⟨"simulator/file_system/folder.py", "Folder", "red_scan_countdown", "default", "red_scan_countdown", "0", ""⟩, .construct),
   (⟨"simulator/file_system/folder.py", "Folder", "restore_countdown", "default", "restore_countdown", "0", ""⟩, .construct),
   (⟨"simulator/file_system/folder.py", "Folder", "scan_countdown", "default", "scan_countdown", "0", ""⟩, .construct),
-  (⟨"simulator/file_system/folder.py", "Folder.__init__", "_scanned_this_step", "assign", "self._scanned_this_step", "False", ""⟩, .outOfScope),
+  (⟨"simulator/file_system/folder.py", "Folder.__init__", "_scanned_this_step", "assign", "self._scanned_this_step", "False", ""⟩, .construct),
   (⟨"simulator/file_system/folder.py", "Folder._restoring_timestep", "health_status", "assign", "self.health_status", "FileSystemItemHealthStatus.GOOD", "self.restore_countdown >= 0 && self.restore_countdown == 0 && not (self.deleted) && self.health_status in [FileSystemItemHealthStatus.CORRUPT, FileSystemItemHealthStatus.RESTORING]"⟩, .folderRestoreTick),
   (⟨"simulator/file_system/folder.py", "Folder._restoring_timestep", "restore_countdown", "augSub", "self.restore_countdown", "1", "self.restore_countdown >= 0"⟩, .folderRestoreTick),
   (⟨"simulator/file_system/folder.py", "Folder._reveal_to_red_timestep", "red_scan_countdown", "augSub", "self.red_scan_countdown", "1", "self.red_scan_countdown >= 0"⟩, .outOfScope),
   (⟨"simulator/file_system/folder.py", "Folder._reveal_to_red_timestep", "revealed_to_red", "assign", "self.revealed_to_red", "True", "self.red_scan_countdown >= 0 && self.red_scan_countdown == 0"⟩, .outOfScope),
-  (⟨"simulator/file_system/folder.py", "Folder._scan_timestep", "_scanned_this_step", "assign", "self._scanned_this_step", "True", "self.scan_countdown >= 0 && self.scan_countdown == 0"⟩, .outOfScope),
+  (⟨"simulator/file_system/folder.py", "Folder._scan_timestep", "_scanned_this_step", "assign", "self._scanned_this_step", "True", "self.scan_countdown >= 0 && self.scan_countdown == 0"⟩, .folderScanTick),
   (⟨"simulator/file_system/folder.py", "Folder._scan_timestep", "health_status", "assign", "self.health_status", "FileSystemItemHealthStatus(max([f.health_status.value for f in self.files.values()] or [0]))", "self.scan_countdown >= 0 && self.scan_countdown == 0"⟩, .folderScanTick),
   (⟨"simulator/file_system/folder.py", "Folder._scan_timestep", "scan_countdown", "augSub", "self.scan_countdown", "1", "self.scan_countdown >= 0"⟩, .folderScanTick),
   (⟨"simulator/file_system/folder.py", "Folder._scan_timestep", "visible_health_status", "assign", "self.visible_health_status", "self.health_status", "self.scan_countdown >= 0 && self.scan_countdown == 0"⟩, .folderScanTick),
   (⟨"simulator/file_system/folder.py", "Folder.corrupt", "health_status", "assign", "self.health_status", "FileSystemItemHealthStatus.CORRUPT", "not (self.deleted)"⟩, .folderCorrupt),
-  (⟨"simulator/file_system/folder.py", "Folder.pre_timestep", "_scanned_this_step", "assign", "self._scanned_this_step", "False", ""⟩, .outOfScope),
+  (⟨"simulator/file_system/folder.py", "Folder.pre_timestep", "_scanned_this_step", "assign", "self._scanned_this_step", "False", ""⟩, .folderPre),
   (⟨"simulator/file_system/folder.py", "Folder.repair", "health_status", "assign", "self.health_status", "FileSystemItemHealthStatus.GOOD", "not (self.deleted)"⟩, .folderRepair),
   (⟨"simulator/file_system/folder.py", "Folder.repair", "health_status", "assign", "self.health_status", "FileSystemItemHealthStatus.GOOD", "not (self.deleted) && self.health_status == FileSystemItemHealthStatus.CORRUPT"⟩, .folderRepair),
   (⟨"simulator/file_system/folder.py", "Folder.restore", "health_status", "assign", "self.health_status", "FileSystemItemHealthStatus.RESTORING", "self.restore_countdown <= 0"⟩, .folderRestoreStart),
   (⟨"simulator/file_system/folder.py", "Folder.restore", "restore_countdown", "assign", "self.restore_countdown", "max(self.restore_duration, 1)", "self.restore_countdown <= 0"⟩, .folderRestoreStart),
   (⟨"simulator/file_system/folder.py", "Folder.reveal_to_red", "red_scan_countdown", "assign", "self.red_scan_countdown", "self.red_scan_duration", "not (self.deleted) && not (instant_scan) && self.red_scan_countdown <= 0"⟩, .outOfScope),
   (⟨"simulator/file_system/folder.py", "Folder.reveal_to_red", "revealed_to_red", "assign", "self.revealed_to_red", "True", "not (self.deleted) && instant_scan"⟩, .outOfScope),
-  (⟨"simulator/file_system/folder.py", "Folder.scan", "_scanned_this_step", "assign", "self._scanned_this_step", "True", "not (self.deleted) && instant_scan"⟩, .outOfScope),
+  (⟨"simulator/file_system/folder.py", "Folder.scan", "_scanned_this_step", "assign", "self._scanned_this_step", "True", "not (self.deleted) && instant_scan"⟩, .folderInstantScan),
   (⟨"simulator/file_system/folder.py", "Folder.scan", "scan_countdown", "assign", "self.scan_countdown", "max(self.scan_duration, 1)", "not (self.deleted) && not (instant_scan) && self.scan_countdown <= 0"⟩, .folderScanStart),
   (⟨"simulator/file_system/folder.py", "Folder.scan", "visible_health_status", "assign", "self.visible_health_status", "FileSystemItemHealthStatus.CORRUPT", "not (self.deleted) && instant_scan && for file_id in self.files && file.visible_health_status == FileSystemItemHealthStatus.CORRUPT"⟩, .folderInstantScan),
   (⟨"simulator/network/hardware/base.py", "Node", "node_scan_countdown", "default", "node_scan_countdown", "0", ""⟩, .construct),
@@ -249,7 +251,7 @@ def Ev.item : Ev → Item
   | .svcRestartStart | .svcRestartTick => .sw
   | .fileScan | .fileCorrupt | .fileRepair | .fileRestore | .fileCopy | .fileExternal | .dbReplace => .file
   | .folderScanStart | .folderScanTick | .folderInstantScan | .folderCorrupt | .folderRepair | .folderRestoreStart
-  | .folderRestoreTick | .folderExternal => .folder
+  | .folderRestoreTick | .folderExternal | .folderPre => .folder
   | .nodeScanStart | .nodeScanTick | .nodePowerOn | .nodePowerOff | .nodePowerTick | .nodeRedScan => .node
   | .construct | .outOfScope => .other
 
@@ -267,7 +269,9 @@ theorem C14_inv_events :
     evsFor "*" .file = [.fileCopy] ∧
     evsFor "health_status" .folder =
       [.folderRestoreTick, .folderScanTick, .folderCorrupt, .folderRepair, .folderRestoreStart, .folderExternal] ∧
-    evsFor "visible_health_status" .folder = [.folderScanTick, .folderInstantScan] := by decide
+    evsFor "visible_health_status" .folder = [.folderScanTick, .folderInstantScan] ∧
+    -- the observation refresh flag is written by the two completing scans and by `pre_timestep`, nowhere else in the tree
+    evsFor "_scanned_this_step" .folder = [.folderScanTick, .folderPre, .folderInstantScan] := by decide
 
 /-- step `op` from node state `n` contains event `e` writing `new` into the actual health of software item `x` -/
 def swStepHas (n : Node) (op : Op) (x : Sw) (new : SwH) : Ev → Prop
@@ -389,7 +393,7 @@ theorem C14_inv_folder (n : Node) (op : Op) (j : Nat) (G G' : Folder)
     evsFor "health_status" .folder =
       [.folderRestoreTick, .folderScanTick, .folderCorrupt, .folderRepair, .folderRestoreStart, .folderExternal] ∧
     (G'.actual ≠ G.actual → folderActualCause n op G G'.actual) :=
-  ⟨C14_inv_events.2.2.2.2.2.2, fun h => (C14_folder_visible_only_by_scan n op j G G' hG hG' h).1,
+  ⟨C14_inv_events.2.2.2.2.2.2.1, fun h => (C14_folder_visible_only_by_scan n op j G G' hG hG' h).1,
     C14_inv_events.2.2.2.2.2.1, fun h => C14_folder_actual_only_by_event n op j G G' hG hG' h⟩
 
 /-! ### non-vacuity: the hypotheses of the `C14_inv_*` theorems are met by concrete steps (kernel-evaluated) -/
